@@ -1,5 +1,5 @@
 SPECIFICATION Spec
-CONSTANTS Mode = "reverse"  Variant = "ok"  Family = "sweep"  List = { }  Steps = 3  PairMod = 1
+CONSTANTS Mode = "reverse"  Variant = "ok"  Family = "list"  List = { 1021013, 3081203, 1090312, 2130406 }  Steps = 3  PairMod = 1
           Extra = { 1002 }
 INVARIANT TypeOK
 INVARIANT WallsHold
